@@ -139,8 +139,9 @@ func (p *plug) Execute(ctx context.Context, req any) (any, *plugins.Error) {
 		case <-time.After(overrunGuard):
 			l.note("overrun guard expired for %s#%d: context never cancelled", tag, n)
 		}
-		// stay a little past the deadline so the engine is certainly the one that timed out
-		time.Sleep(200 * time.Microsecond)
+		// answer late (Wrap selects how late): the engine has timed the attempt out and moved on, possibly to the next
+		// attempt; the late answer below must never be recorded anywhere
+		time.Sleep([...]time.Duration{200 * time.Microsecond, time.Millisecond, 3 * time.Millisecond, 8 * time.Millisecond}[st.Wrap%4])
 	}
 	l.exit(tag, ref, n, st.Out, ctx)
 
@@ -150,8 +151,20 @@ func (p *plug) Execute(ctx context.Context, req any) (any, *plugins.Error) {
 			return &RespP{Tag: tag, N: n}, nil
 		}
 		return RespV{Tag: tag, N: n}, nil
-	case OKNil, Overrun:
+	case OKNil:
 		return nil, nil
+	case Overrun:
+		// a distinctive, correctly typed late answer: if it ever shows up in an attempt the oracle sees whose it is
+		if p.ptr {
+			return &RespP{Tag: tag, N: n}, nil
+		}
+		return RespV{Tag: tag, N: n}, nil
+	case WrongTypeErr:
+		e := ScriptedError(tag, n, st)
+		if p.ptr {
+			return RespV{Tag: tag, N: n}, e
+		}
+		return &RespP{Tag: tag, N: n}, e
 	case WrongType:
 		if p.ptr {
 			return RespV{Tag: tag, N: n}, nil
